@@ -29,6 +29,8 @@ CHECKS = {
     "C15": ("records", REC_TXT % ("PCConfig (merge)", "loader on generated file lists and extends chains", "C15_* (process union, override wins, environment and depends_on merged by key byte-exactly, extends = explicit list modulo working-dir resolution)"), REC_NOTE),
     "C16": ("records", REC_TXT % ("PCConfig (load)", "loader (5 loads per file)", "C16_* (deterministic, defaults, canonical replica names, per-replica rendering from the token form of every template, no aliasing between replicas)"), REC_NOTE),
     "C17": ("records", REC_TXT % ("PCConfig (environment)", "loader and the launch path of the runner (scripted commanders record SetEnv/SetDir)", "C17_* (expansion of $VAR / ${VAR} / $$ from token sequences, injected variables, precedence per-process > global > inherited, working directory)"), REC_NOTE),
+    "C13": ("records", REC_TXT % ("PCScale", "ScaleProcess on a live runner with scripted commanders (projection of the four maps, per-replica config/state/log and ground-truth commands before and after)", "C13_* (exactly n canonical replicas, four maps agree, same as a fresh load, rendered for its own replica number, survivors undisturbed, removed terminated, added launched, invalid requests rejected without effect)"), REC_NOTE),
+    "C14": ("records", REC_TXT % ("PCScale / PCConfig", "UpdateProject on a live runner (sequences of up to 3 updates) and ProcessConfig.Compare on pairs differing in known fields", "C14_* (set equals new, unchanged keep their instance, changed are terminated before the new instance is launched with the new argv/env/dir, removed gone, added launched, status map exact, change detection of every launch-relevant field)"), REC_NOTE),
     "C18": ("records", "Operation histories of the real pclog.ProcessLogBuffer (exhaustive (offset, limit) grids on small logs and around the trim boundary; a writer concurrent with subscribers; stalled follower) validated by TLC against PCLogBuffer / PCLogBufferTrace (C18_Recent, C18_RangeWindow, C18_FollowerNoGapNoDup, C18_StalledFollowerDoesNotBlock); the design model is explored exhaustively for small constants.", REC_NOTE),
 }
 try:
